@@ -6,8 +6,18 @@
 pub mod a;
 pub mod b;
 pub mod c;
+pub mod badge;
 pub mod speed;
 pub mod types;
+
+/// Only reachable through the `#[doc(hidden)]` re-export below: whether rustdoc documents hidden
+/// items decides under which path the type is known.
+pub mod sealed {
+    pub struct Badge(pub u32);
+}
+// Kept for old call sites, no longer advertised.
+#[doc(hidden)]
+pub use sealed::Badge;
 
 // Source text that lives in a file WITHOUT the `.rs` extension (pulled in by `include!`): it is
 // part of the crate all the same, and an edit there must invalidate cached docs like any other.
